@@ -278,6 +278,11 @@ pub fn gen(args: &Args, emit: &mut dyn FnMut(Value)) {
     for _ in 0..args.n {
         emit(gen_case(&mut rng));
     }
+    // second case kind: `Rule::into_route` against Model/IntoRoute.lean (package W3d)
+    let mut rng2 = Prng::new(args.seed ^ 0x1d70_0e5e);
+    for _ in 0..(args.n / 3).max(1) {
+        emit(into_route::gen_case(&mut rng2));
+    }
 }
 
 fn get<'a>(v: &'a Value, k: &str) -> &'a Value {
@@ -426,6 +431,9 @@ fn u16_of(v: &Value) -> Option<u16> {
 }
 
 fn run(case: &Value) -> Obs {
+    if case.get("kind").and_then(|k| k.as_str()) == Some("into_route") {
+        return into_route::run(case);
+    }
     let rules = match build_rules(case) {
         Ok(r) => r,
         Err(e) => return Obs::invalid(&e),
@@ -631,6 +639,248 @@ fn run(case: &Value) -> Obs {
         return o.fail("the router returned a matched rule more than once: its effects are applied twice", "dup-match");
     }
     o
+}
+
+/// `impl IntoRoute<Rule> for Rule` observed structurally through the accessors of `Route`.
+/// case: {"kind":"into_route","cfg":{"ihc","ihdc","ipc","any"},"src":{"id","rank","scheme"?,"host"?,"path","query"?,"markers":"dl",
+///        "ips":[{"neg","range"}]?,"methods"?,"exclude"?,"headers":[{"name","kind","value"?}]?,"datetime":[[s?,e?]]?,"time":[[s?,e?]]?,"weekdays":[str]?}}
+/// obs:  {"id","priority","scheme","methods","exclude","host":null|{"static":s}|{"dyn":regex},"path":…,
+///        "headers":[[name,kind,payload]],"ips":null|[[neg,v6,base,bits]],"datetime":null|[[start,end]] (epoch s),
+///        "time":null|[[start,end]] (s since midnight),"weekdays":null|[n] (from Monday)}
+pub mod into_route {
+    use super::*;
+    use chrono::{Datelike, Timelike};
+    use redirectionio::marker::StaticOrDynamic;
+    use redirectionio::router::{RouteHeaderKind, RouteIp};
+
+    const PATHS: &[&str] = &["/", "/a", "/A/B", "/a b", "/caf\u{e9}", "/a/@d", "/a/@d/@l", "/x_y.z", "/a\"b", "/a<b>", "/@q/@d", "/a%20b", "/A/@x"];
+    const QUERIES: &[&str] = &["", "b=1&a=2", "a=%2B&b=a+b", "k=1&k=2", "\u{e9}=1", "a", "=", "a=1&&b", "B=1&a=2", "x=@d"];
+    const HOSTS: &[&str] = &["", "a.com", "A.COM", "@l.com", "shop-@d.a.com", "www.a.com", "@q.com"];
+    const RANGES: &[&str] = &["10.0.0.0/8", "10.1.0.0/16", "10.1.2.3", "10.0.0.1/8", "not-a-cidr", "", "300.1.1.1/8", "10.0.0.0/33", "192.168.0.0/24", "0.0.0.0/0", "10.0.0.0/08x", "1.2.3/8"];
+    const INSTANTS: &[&str] = &["2020-01-01T00:00:00Z", "2020-01-01T02:00:00+02:00", "2020-06-15T12:30:45-05:00", "2019-12-31T23:59:59Z", "garbage", "", "2020-13-01T00:00:00Z", "2020-02-30T00:00:00Z", "2024-02-29T00:00:00Z", "2020-01-01", "1970-01-01T00:00:00Z"];
+    const TIMES: &[&str] = &["00:00:00", "14:30:00", "23:59:59", "24:00:00", "12:60:00", "noon", "", "07:05:09"];
+    const DAYS: &[&str] = &["Monday", "mon", "TUE", "Wed", "thursday", "Fri", "SAT", "sun", "Funday", "", "Mo", "Sunday"];
+    const KINDS: &[&str] = &["is_defined", "is_not_defined", "is_equals", "is_not_equal_to", "contains", "does_not_contain", "ends_with", "starts_with", "match_regex", "bogus", "IS_DEFINED", ""];
+
+    fn opt_s(rng: &mut Prng, pool: &[&str], num: usize, den: usize) -> Value {
+        if rng.chance(num, den) { json!(*rng.pick(pool)) } else { Value::Null }
+    }
+
+    fn ranges(rng: &mut Prng, pool: &[&str]) -> Value {
+        match rng.below(5) {
+            0 | 1 => Value::Null,
+            2 => json!([]),
+            _ => Value::Array((0..rng.range(1, 3)).map(|_| json!([opt_s(rng, pool, 2, 3), opt_s(rng, pool, 2, 3)])).collect()),
+        }
+    }
+
+    pub fn gen_case(rng: &mut Prng) -> Value {
+        let cfg = json!({"ihc": rng.chance(1, 2), "ihdc": rng.chance(1, 2), "ipc": rng.chance(1, 2), "any": rng.chance(1, 2)});
+        let mut src = Map::new();
+        src.insert("id".into(), json!(format!("r{}", rng.below(100))));
+        src.insert("rank".into(), json!(*rng.pick(&[0u64, 1, 7, 65535])));
+        src.insert("scheme".into(), opt_s(rng, &["", "http", "https"], 1, 2));
+        src.insert("host".into(), opt_s(rng, HOSTS, 2, 3));
+        src.insert("path".into(), json!(*rng.pick(PATHS)));
+        src.insert("query".into(), opt_s(rng, QUERIES, 1, 2));
+        src.insert("markers".into(), json!(*rng.pick(&["", "", "d", "dl", "dlsx", "x"])));
+        src.insert("ips".into(), match rng.below(5) {
+            0 | 1 => Value::Null,
+            2 => json!([]),
+            _ => Value::Array((0..rng.range(1, 4)).map(|_| json!({"neg": rng.chance(1, 3), "range": *rng.pick(RANGES)})).collect()),
+        });
+        src.insert("methods".into(), match rng.below(5) {
+            0 | 1 => Value::Null,
+            2 => json!([]),
+            3 => json!(["GET"]),
+            _ => json!(["GET", "GET", "post"]),
+        });
+        src.insert("exclude".into(), match rng.below(4) {
+            0 | 1 => Value::Null,
+            2 => json!(false),
+            _ => json!(true),
+        });
+        src.insert("headers".into(), match rng.below(5) {
+            0 => Value::Null,
+            1 => json!([]),
+            _ => Value::Array((0..rng.range(1, 4)).map(|_| json!({"name": *rng.pick(&["X-A", "x-a", "Accept"]), "kind": *rng.pick(KINDS), "value": opt_s(rng, &["v", "Val", "V-@d", "@l", ""], 3, 4)})).collect()),
+        });
+        src.insert("datetime".into(), ranges(rng, INSTANTS));
+        src.insert("time".into(), ranges(rng, TIMES));
+        src.insert("weekdays".into(), match rng.below(5) {
+            0 | 1 => Value::Null,
+            2 => json!([]),
+            _ => Value::Array((0..rng.range(1, 4)).map(|_| json!(*rng.pick(DAYS))).collect()),
+        });
+        json!({"kind": "into_route", "cfg": cfg, "src": Value::Object(src)})
+    }
+
+    fn marker_regex(c: char) -> Option<&'static str> {
+        match c {
+            'd' => Some("[0-9]+"),
+            'l' => Some("[a-z]+"),
+            's' => Some("[^/]+"),
+            'x' => Some(".*"),
+            _ => None,
+        }
+    }
+
+    fn rule_json(src: &Value) -> Option<Value> {
+        let mut markers = Vec::new();
+        let ms: Vec<char> = src.get("markers").and_then(|m| m.as_str()).unwrap_or("").chars().collect();
+        for (i, c) in ms.iter().enumerate() {
+            if ms[..i].contains(c) {
+                return None;
+            }
+            markers.push(json!({"name": c.to_string(), "regex": marker_regex(*c)?}));
+        }
+        let ips = match get(src, "ips") {
+            Value::Null => Value::Null,
+            Value::Array(a) => {
+                let mut out = Vec::new();
+                for ip in a {
+                    let range = ip.get("range")?.as_str()?;
+                    out.push(if ip.get("neg")?.as_bool()? { json!({"not_in_range": range}) } else { json!({"in_range": range}) });
+                }
+                Value::Array(out)
+            }
+            _ => return None,
+        };
+        let headers = match get(src, "headers") {
+            Value::Null => Value::Null,
+            Value::Array(a) => {
+                let mut out = Vec::new();
+                for h in a {
+                    out.push(json!({"type": h.get("kind")?.as_str()?, "name": h.get("name")?.as_str()?, "value": get(h, "value")}));
+                }
+                Value::Array(out)
+            }
+            _ => return None,
+        };
+        Some(json!({
+            "id": src.get("id")?.as_str()?, "rank": src.get("rank")?.as_u64()?, "markers": markers,
+            "source": {"scheme": get(src, "scheme"), "host": get(src, "host"), "path": src.get("path")?.as_str()?, "query": get(src, "query"),
+                       "ips": ips, "methods": get(src, "methods"), "exclude_methods": get(src, "exclude"), "headers": headers,
+                       "datetime": get(src, "datetime"), "time": get(src, "time"), "weekdays": get(src, "weekdays")},
+        }))
+    }
+
+    fn sod(s: &StaticOrDynamic) -> Value {
+        match s {
+            StaticOrDynamic::Static(s) => json!({"static": s}),
+            StaticOrDynamic::Dynamic(m) => json!({"dyn": m.regex}),
+        }
+    }
+
+    pub fn run(case: &Value) -> Obs {
+        let config = match case.get("cfg") {
+            Some(c) => {
+                let b = |k: &str| c.get(k).and_then(|v| v.as_bool());
+                match (b("ihc"), b("ihdc"), b("ipc"), b("any")) {
+                    (Some(ihc), Some(ihdc), Some(ipc), Some(any)) => {
+                        let mut cfg = RouterConfig::default();
+                        cfg.ignore_host_case = ihc;
+                        cfg.ignore_header_case = ihdc;
+                        cfg.ignore_path_and_query_case = ipc;
+                        cfg.always_match_any_host = any;
+                        cfg
+                    }
+                    _ => return Obs::invalid("cfg"),
+                }
+            }
+            None => return Obs::invalid("cfg"),
+        };
+        let src = match case.get("src") {
+            Some(s) => s,
+            None => return Obs::invalid("src"),
+        };
+        // the model lower-cases ASCII only and renders the encoded path as ASCII: keep texts where that is what Rust does
+        for k in ["host", "scheme"] {
+            if let Some(s) = get(src, k).as_str() {
+                if !s.is_ascii() {
+                    return Obs::invalid("non-ascii host / scheme");
+                }
+            }
+        }
+        let rule: Rule = match rule_json(src).and_then(|j| serde_json::from_value(j).ok()) {
+            Some(r) => r,
+            None => return Obs::invalid("rule source"),
+        };
+        if let Some(hs) = &rule.source.headers {
+            if hs.iter().any(|h| !h.name.is_ascii() || h.value.as_ref().map_or(false, |v| !v.is_ascii())) {
+                return Obs::invalid("non-ascii header text");
+            }
+        }
+        let route = rule.into_route(&config);
+        let headers: Vec<Value> = route
+            .headers()
+            .iter()
+            .map(|h| {
+                let (kind, payload) = match &h.kind {
+                    RouteHeaderKind::IsDefined => ("is_defined", Value::Null),
+                    RouteHeaderKind::IsNotDefined => ("is_not_defined", Value::Null),
+                    RouteHeaderKind::IsEquals(v) => ("is_equals", json!(v)),
+                    RouteHeaderKind::IsNotEqualTo(v) => ("is_not_equal_to", json!(v)),
+                    RouteHeaderKind::Contains(v) => ("contains", json!(v)),
+                    RouteHeaderKind::DoesNotContain(v) => ("does_not_contain", json!(v)),
+                    RouteHeaderKind::EndsWith(v) => ("ends_with", json!(v)),
+                    RouteHeaderKind::StartsWith(v) => ("starts_with", json!(v)),
+                    RouteHeaderKind::MatchRegex(m) => ("match_regex", json!(m.regex)),
+                };
+                json!([h.name, kind, payload])
+            })
+            .collect();
+        let ips = match route.ips() {
+            None => Value::Null,
+            Some(v) => Value::Array(
+                v.iter()
+                    .map(|ip| {
+                        let (neg, c) = match ip {
+                            RouteIp::InRange(c) => (false, c),
+                            RouteIp::NotInRange(c) => (true, c),
+                        };
+                        match (c.first_address(), c.network_length()) {
+                            (Some(std::net::IpAddr::V4(a)), Some(n)) => json!([neg, false, u32::from(a), n]),
+                            (Some(std::net::IpAddr::V6(a)), Some(n)) => json!([neg, true, u128::from(a).to_string(), n]),
+                            _ => json!([neg, "any"]),
+                        }
+                    })
+                    .collect(),
+            ),
+        };
+        let datetime = match route.datetime() {
+            None => Value::Null,
+            Some(v) => Value::Array(v.iter().map(|r| json!([r.start.map(|d| d.and_utc().timestamp()), r.end.map(|d| d.and_utc().timestamp())])).collect()),
+        };
+        let time = match route.time() {
+            None => Value::Null,
+            Some(v) => Value::Array(v.iter().map(|r| json!([r.start.map(|t| t.num_seconds_from_midnight()), r.end.map(|t| t.num_seconds_from_midnight())])).collect()),
+        };
+        let weekdays = match route.weekdays() {
+            None => Value::Null,
+            Some(w) => json!(w.weekdays.0.iter().map(|d| d.num_days_from_monday()).collect::<Vec<u32>>()),
+        };
+        let _ = chrono::Utc::now().year();
+        let obs = json!({
+            "id": route.id(), "priority": route.priority(), "scheme": route.scheme(), "methods": route.methods(), "exclude": route.exclude_methods(),
+            "host": route.host().map(sod), "path": sod(route.path_and_query()), "headers": headers, "ips": ips,
+            "datetime": datetime, "time": time, "weekdays": weekdays,
+        });
+        let mut o = Obs::new(obs).tag("kind:into_route");
+        if route.ips().is_some() {
+            o.tags.push("ir:ips".into());
+        }
+        if matches!(route.path_and_query(), StaticOrDynamic::Dynamic(_)) {
+            o.tags.push("ir:dyn-path".into());
+        }
+        if route.datetime().is_some() || route.time().is_some() || route.weekdays().is_some() {
+            o.tags.push("ir:date".into());
+        }
+        if !route.headers().is_empty() {
+            o.tags.push("ir:headers".into());
+        }
+        o
+    }
 }
 
 fn main() {
